@@ -248,8 +248,8 @@ def setup_shard(ctx, P):
 
 
 def streams(ctx):
-    return [("emitted", ctx.scale(120, 2500)), ("docstrings", ctx.scale(1500, 40000)), ("functions", ctx.scale(600, 15000)),
-            ("tokens", ctx.scale(3000, 80000)), ("sqlalchemy_hand", ctx.scale(800, 20000))]
+    return [("emitted", ctx.scale(400, 3000)), ("docstrings", ctx.scale(5000, 50000)), ("functions", ctx.scale(2000, 20000)),
+            ("tokens", ctx.scale(8000, 100000)), ("sqlalchemy_hand", ctx.scale(2500, 25000))]
 
 
 def gen_function(r):
